@@ -8,9 +8,13 @@
       C02_eb_terminates            proved (S-case SwingLeft loop + start-face phase, every input)
       C03_eb_accept_valid_partial  proved for the table at the end of the start-face phase (before the vertex compaction)
       C03_eb_opposite_edges_refuted, C03_eb_degenerate_faces_refuted   proved (witnesses; reproduced on the real decoder)
-      C02_eb_no_oob                NOT proved (statement and the missing invariant below); tied + searched under ASan only *)
+      C02_eb_no_oob                proved: eb_full (header guards + state machine) never yields OOB, no hypothesis at all
+      C03_eb_fan_invariant         proved: the loop invariant (fans) holds after every accepted symbol prefix
+      guard lemmas                 two guards of the C case are implied by the invariants (their mutants are equivalent)
+    NOT proved: the statement about the table AFTER the vertex compaction (ids < returned count, left-most corners),
+    termination of the VertexCornersIterator walk inside the compaction, AssignPointsToCorners. *)
 From Coq Require Import ZArith List Bool.
-From Draco Require Import Model.Edgebreaker Proofs.Edgebreaker_proofs.
+From Draco Require Import Model.Edgebreaker Proofs.Edgebreaker_proofs Proofs.Edgebreaker_fan_proofs Proofs.Edgebreaker_oob_proofs.
 Import ListNotations.
 Local Open Scope Z_scope.
 
@@ -49,9 +53,10 @@ Print Assumptions C02_eb_caller_guard.
     every vertex_corners_ entry is -1 or a valid corner; the recorded invalid vertices are allocated vertices.
     (The compaction does not write opposite_corners_, so the Opposite clause is also the final one - by inspection of
     [compact]/[vcit_loop], not restated as a theorem.)
-    MISSING: (a) the fan invariant (every corner of a vertex lies on the SwingLeft chain ending in its left-most corner,
-    SwingLeft preserves the vertex) that gives "left-most corner is a corner of that vertex", "no corner maps to an isolated
-    vertex" and hence the clause about ids < n after compaction; (b) the compaction itself. *)
+    The fan invariant of the symbol loop is now proved (C03_eb_fan_invariant below): at the end of the symbol loop the
+    left-most corner of every non-isolated vertex is a corner of it and no corner maps to an isolated vertex.
+    MISSING: carrying it through the compaction (that VertexCornersIterator visits every corner of src_vert, its
+    termination, and the final clause "every corner id < returned count"), and AssignPointsToCorners. *)
 Theorem C03_eb_accept_valid_partial : forall nf maxv rm syms events bits n sf, 0 <= nf -> 0 <= maxv ->
   Z.of_nat (length syms) <= nf ->
   eb_core (3 * nf) maxv nf rm syms events bits = Ok (n, sf) ->
@@ -85,14 +90,52 @@ Theorem C03_eb_degenerate_faces_refuted :
 Proof. eexists. eexists. split; [vm_compute; reflexivity|]. split; vm_compute; reflexivity. Qed.
 Print Assumptions C03_eb_degenerate_faces_refuted.
 
-(** ** C02: no out-of-range index - NOT PROVED.
-    Statement:  forall nev nf nsplit rm syms events bits, eb_full nev nf nsplit rm syms events bits <> OOB.
-    The model makes every index test explicit; the tie compares ~26k (quick) / ~216k (thorough) valid and hostile runs of the
-    real decoder under ASan+UBSan with the model: no OOB value, no sanitizer report.  A proof needs the fan invariant (a)
-    above: the C case and the start-face phase compute corner_b = Next(LeftMostCorner(v)) and pass it UNCHECKED to the
-    decoder's own SetOppositeCorners (which, unlike CornerTable's, does not test for kInvalidCornerIndex), so they index
-    opposite_corners_[0xFFFFFFFF] as soon as some corner maps to an isolated vertex; that this never happens rests on the
-    S-case relabelling loop reaching EVERY corner of vertex n, i.e. on the single-fan structure of every vertex. *)
+(** ** C02: no out-of-range index.
+    For every declared vertex / face / split count, every symbol list, every split-event list, every start-face bit
+    function: the run of DecodeConnectivity() never indexes corner_to_vertex_map_, opposite_corners_, vertex_corners_ or
+    is_vert_hole_ outside its size - in particular `corner_b = Next(LeftMostCorner(v))`, passed unchecked to the decoder's own
+    SetOppositeCorners in the C case and in the start-face phase, is never kInvalidCornerIndex there.  No hypothesis. *)
+Theorem C02_eb_no_oob : forall nev nf nsplit rm syms events bits,
+  eb_full nev nf nsplit rm syms events bits <> OOB.
+Proof. exact eb_full_no_oob. Qed.
+Print Assumptions C02_eb_no_oob.
+
+(** the same for DecodeConnectivity(int) alone, under its caller's guard num_symbols <= num_faces *)
+Theorem C02_eb_core_no_oob : forall nf maxv rm syms events bits, 0 <= nf -> 0 <= maxv -> Z.of_nat (length syms) <= nf ->
+  eb_core (3 * nf) maxv nf rm syms events bits <> OOB.
+Proof. exact eb_core_no_oob. Qed.
+Print Assumptions C02_eb_core_no_oob.
+
+(** ** The loop invariant behind it (C03 groundwork): after ANY accepted prefix of symbols
+      - SwingLeft keeps the vertex of a corner;
+      - every corner of a created face maps to a non-isolated vertex v and reaches vertex_corners_[v] by iterating
+        SwingLeft (the corners of a vertex form one fan whose left end - or, for a closed fan, one of whose corners - is
+        the left-most corner);
+      - vertex_corners_[v] is -1 or a corner of v;
+      - the vertices recorded as invalid are isolated and pairwise distinct.
+    (Together with W: Opposite is a fixed-point-free involution between different faces, all indices in range.) *)
+Theorem C03_eb_fan_invariant : forall nf maxv rm syms events s, 0 <= nf -> 0 <= maxv -> Z.of_nat (length syms) <= nf ->
+  sym_loop (3 * nf) maxv rm (Z.of_nat (length syms)) syms 0 (init_st events) = Ok s ->
+  let m := 3 * nfaces s in
+  (forall c, 0 <= c < m -> slf s c <> -1 -> c2v s (slf s c) = c2v s c) /\
+  (forall c, 0 <= c < m -> vc s (c2v s c) <> -1 /\ exists k : nat, Nat.iter k (slf s) c = vc s (c2v s c)) /\
+  (forall v, 0 <= v < nv s -> vc s v <> -1 -> c2v s (vc s v) = v) /\
+  Forall (fun v => vc s v = -1) (invalid s) /\ NoDup (invalid s).
+Proof. exact eb_fan_invariant. Qed.
+Print Assumptions C03_eb_fan_invariant.
+
+(** Guards of the C case that the invariants make redundant (the mutants that drop them are equivalent; the harness
+    cannot - and does not - distinguish them): *)
+Theorem C03_eb_guard_corner_a_eq_b_redundant : forall NC maxv s f a, W NC maxv f s -> FI f s -> 0 <= a < 3 * f ->
+  let x := c2v s (next_c a) in let b := next_c (vc s x) in
+  a = b -> x = c2v s (prev_c a).
+Proof. exact guard_C_corner_a_eq_b_redundant. Qed.
+Print Assumptions C03_eb_guard_corner_a_eq_b_redundant.
+
+Theorem C03_eb_guard_opposite_b_redundant : forall NC maxv s f a, W NC maxv f s -> FI f s -> 0 <= a < 3 * f -> copp s a = -1 ->
+  let x := c2v s (next_c a) in let b := next_c (vc s x) in copp s b = -1.
+Proof. exact guard_C_opposite_b_redundant. Qed.
+Print Assumptions C03_eb_guard_opposite_b_redundant.
 
 (** ** Examples (valid streams produced by the real encoder; expected tables = what the real decoder built) *)
 Definition run_faces (NC maxv nf : Z) syms events bits : Z * list Z :=
